@@ -1,5 +1,246 @@
-import Banyan.Model.Util
-open Banyan
+import Banyan.Model.C19
+open Banyan Banyan.C19
 
-/- stub: model driver for C19 not built yet -/
-def main : IO Unit := runDriver fun _ => "bad-op"
+/-! Line-protocol driver of the C19 model; the protocol is documented in
+    hooks/banyand/internal/verifdrv/c19/main.go. -/
+
+def joinOr (l : List String) (sep : String) : String :=
+  if l.isEmpty then "-" else sep.intercalate l
+
+def showIds (l : List Nat) : String := joinOr (l.map toString) ","
+
+def insertSorted (le : α → α → Bool) (a : α) : List α → List α
+  | [] => [a]
+  | b :: bs => if le a b then a :: b :: bs else b :: insertSorted le a bs
+
+def sortBy (le : α → α → Bool) (l : List α) : List α := l.foldr (insertSorted le) []
+
+def sortNat (l : List Nat) : List Nat := sortBy (fun a b => a ≤ b) l
+
+/-- rows of batch `k`: (series, timestamp offset, value). -/
+def rowsOf (k : Nat) : List (Nat × Nat × Nat) :=
+  (List.range (1 + k % 3)).map fun j => (1 + (k + j) % 4, k * 8 + j, k * 1000 + j)
+
+def showRows (batches : List Nat) : String :=
+  let rows := sortBy (fun (a b : Nat × Nat × Nat) => a.1 < b.1 || (a.1 == b.1 && a.2.1 ≤ b.2.1)) (batches.flatMap rowsOf)
+  joinOr (rows.map fun r => s!"{r.1}.{r.2.1}.{r.2.2}") ","
+
+def showParts (t : Table) : String :=
+  match t.cur with
+  | none => "-"
+  | some s => joinOr (s.parts.map fun pw => toString pw.id ++ (if pw.mem then "m" else "")) ","
+
+def dedup [BEq α] (l : List α) : List α :=
+  l.foldl (fun acc a => if acc.contains a then acc else acc ++ [a]) []
+
+def showRefs (t : Table) : String :=
+  let pws := dedup (t.live.flatMap (·.parts))
+  let pws := sortBy (fun (a b : PW) => a.id < b.id || (a.id == b.id && (a.mem || !b.mem))) pws
+  joinOr (pws.map fun pw =>
+    toString pw.id ++ (if pw.mem then "m" else "") ++ ":" ++ toString (t.refPW pw) ++
+      (if !pw.mem && t.removable.contains pw.id then "x" else "") ++
+      (if !pw.mem && !(t.disk.any (·.id == pw.id)) then "!" else "")) ","
+
+def allBatches (t : Table) : List Nat :=
+  match t.cur with
+  | none => []
+  | some s => s.parts.flatMap (·.batches)
+
+/-! ### token parsing -/
+
+def parsePositions (s : String) : List Nat := (s.splitOn "+").filterMap (·.toNat?)
+
+structure SnapSpec where
+  hooks : List (Nat × String) := []
+  failAt : Option Nat := none
+
+/-- split "@0=b@1=m0+1!2" into items with their leading marker. -/
+def splitItems (cs : List Char) : List (Char × String) :=
+  let rec go (cs : List Char) (cur : Option (Char × List Char)) (acc : List (Char × String)) : List (Char × String) :=
+    match cs with
+    | [] => match cur with
+      | none => acc.reverse
+      | some (m, b) => ((m, String.ofList b.reverse) :: acc).reverse
+    | c :: rest =>
+      if c == '@' || c == '!' then
+        match cur with
+        | none => go rest (some (c, [])) acc
+        | some (m, b) => go rest (some (c, [])) ((m, String.ofList b.reverse) :: acc)
+      else
+        match cur with
+        | none => go rest none acc
+        | some (m, b) => go rest (some (m, c :: b)) acc
+  go cs none []
+
+def parseSnap (tok : String) : SnapSpec :=
+  (splitItems (tok.toList.drop 1)).foldl (fun sp (m, body) =>
+    if m == '@' then
+      match body.splitOn "=" with
+      | [p, op] => match p.toNat? with
+        | some n => { sp with hooks := sp.hooks ++ [(n, op)] }
+        | none => sp
+      | _ => sp
+    else
+      match body.toNat? with
+      | some n => { sp with failAt := some n }
+      | none => sp) {}
+
+/-! ### tbl -/
+
+structure TS where
+  t : Table := {}
+  next : Nat := 0
+  fired : List Nat := []
+  hookOut : List String := []
+
+def tsLens : Lens TS := ⟨fun s => s.t, fun s t => { s with t := t }⟩
+
+def tblMaint (s : TS) (op : String) : TS :=
+  match op.toList with
+  | ['b'] => { s with next := s.next + 1, t := s.t.introduce (s.next + 1) }
+  | ['f'] => { s with t := s.t.flush }
+  | 'm' :: r => { s with t := s.t.merge (parsePositions (String.ofList r)) }
+  | _ => s
+
+def tblHook (sp : SnapSpec) (p : Nat) (s : TS) : TS :=
+  let s := { s with fired := s.fired ++ [p],
+                    hookOut := s.hookOut ++ [s!"{p}:snap={s.t.refCur};refs={showRefs s.t}"] }
+  (sp.hooks.filter (·.1 == p)).foldl (fun s h => tblMaint s h.2) s
+
+def showDst (d : Option Dst) : String :=
+  match d with
+  | none => "dst=0 man=none dirs=- inc=- other=0 open=none oparts=- rows=-"
+  | some d =>
+    let man := match d.manifest with | none => "none" | some m => showIds (sortNat m)
+    let inc := (d.parts.filter (!·.complete)).map (·.id)
+    let rec_ := recover d
+    s!"dst=1 man={man} dirs={showIds (sortNat (d.parts.map (·.id)))} inc={showIds (sortNat inc)} other=0 " ++
+    s!"open=ok oparts={showIds (sortNat (rec_.map (·.id)))} rows={showRows (content rec_)}"
+
+def tblSnapshot (s : TS) (tok : String) : TS × String :=
+  let sp := parseSnap tok
+  let pin := showParts s.t
+  let s0 := { s with fired := [], hookOut := [] }
+  let (s1, ret, _) := takeFileSnapshot tsLens (tblHook sp) sp.failAt none 0 s0
+  let r := match ret.status with
+    | .noSnapshot => "N"
+    | .noDisk => "F"
+    | .err => "E"
+    | .ok => "T"
+  let d := ret.dst
+  (s1, s!"S ret={r} fired={showIds s1.fired} pin={pin} hooks={joinOr s1.hookOut "/"} {showDst d}")
+
+def runTbl (ops : List String) : String :=
+  let (s, recs) := ops.foldl (fun (acc : TS × List String) op =>
+    if op.startsWith "s" then
+      let (s', r) := tblSnapshot acc.1 op
+      (s', acc.2 ++ [r])
+    else (tblMaint acc.1 op, acc.2)) (({} : TS), [])
+  let fin := s!"F parts={showParts s.t} snap={s.t.refCur} refs={showRefs s.t} rows={showRows (allBatches s.t)}"
+  " | ".intercalate (recs ++ [fin])
+
+
+/-! ### db -/
+
+structure DS where
+  db : DB := {}
+  next : Nat := 0
+  dead : List Nat := []
+  fired : List Nat := []
+
+def dsLens : DLens DS := ⟨fun s => s.db, fun s d => { s with db := d }⟩
+
+def digitOf (c : Char) : Nat := c.toNat - 48
+
+def b01 (b : Bool) : String := if b then "1" else "0"
+
+def dbMaint (s : DS) (op : String) : DS :=
+  match op.toList with
+  | ['r', d] => { s with db := s.db.step (.release (digitOf d)) }
+  | [c, d] =>
+    let d := digitOf d
+    if s.dead.contains d then s else
+    if c == 'c' then { s with db := s.db.step (.closeIdle d) }
+    else if c == 'h' then { s with db := s.db.step (.hold d) }
+    else if c == 'x' then (if (s.db.seg d).isSome then { s with dead := d :: s.dead, db := s.db.step (.remove d) } else s)
+    else if c == 'X' then (if (s.db.seg d).isSome then { s with dead := d :: s.dead, db := s.db.step (.deleteFlag d) } else s)
+    else s
+  | [c, d, h] =>
+    let d := digitOf d
+    let h := digitOf h
+    if s.dead.contains d then s else
+    if c == 'w' then { s with next := s.next + 1, db := s.db.step (.write d h (s.next + 1)) }
+    else if c == 'f' then { s with db := s.db.step (.flush d h) }
+    else if c == 'm' then { s with db := s.db.step (.mergeAll d h) }
+    else s
+  | _ => s
+
+def dbHook (sp : SnapSpec) (p : Nat) (s : DS) : DS :=
+  let s := { s with fired := s.fired ++ [p] }
+  (sp.hooks.filter (·.1 == p)).foldl (fun s h => dbMaint s h.2) s
+
+def segStates (db : DB) : String :=
+  joinOr (db.days.filterMap fun d => (db.seg d).map fun sg =>
+    s!"{d}:{b01 sg.isOpen}{b01 sg.del}{b01 sg.dirExists}{sg.ref}") ","
+
+def showTableDst (d : Dst) : String :=
+  let man := match d.manifest with | none => "none" | some m => showIds (sortNat m)
+  let inc := (d.parts.filter (!·.complete)).map (·.id)
+  s!"man={man} dirs={showIds (sortNat (d.parts.map (·.id)))} inc={showIds (sortNat inc)} other=0"
+
+def sortShardDsts (l : List (Nat × Dst)) : List (Nat × Dst) := sortBy (fun a b => a.1 ≤ b.1) l
+
+def showCopy (segs : List (Nat × SegDst)) : String :=
+  let one := fun (x : Nat × SegDst) =>
+    let sh := (sortShardDsts x.2.shards).map fun (h, d) => s!"{h}\{{showTableDst d}}"
+    s!"{x.1}[meta=1 sidx=1 junk=0 {" ".intercalate sh}]"
+  ";".intercalate (segs.map one)
+
+def showCopyQuery (segs : List (Nat × SegDst)) : String :=
+  let qs := segs.flatMap fun x =>
+    (sortShardDsts x.2.shards).map fun (h, d) =>
+      let r := recover d
+      s!"{x.1}.{h}:{showIds (sortNat (r.map (·.id)))}:{showRows (content r)}"
+  joinOr qs ";"
+
+def dbSnapshot (s : DS) (tok : String) : DS × String :=
+  let sp := parseSnap tok
+  let before := segStates s.db
+  let s0 := { s with fired := [] }
+  let (s1, ret) := snapshotDb dsLens (dbHook sp) sp.failAt s0
+  let after := segStates s1.db
+  let head := fun (r : String) (dst : String) => s!"S ret={r} fired={showIds s1.fired} before={before} after={after} dst={dst}"
+  let r := match ret.status with
+    | .nothing => "F"
+    | .err => "E"
+    | .ok => "T"
+  match ret.dst with
+  | none => (s1, head r "0" ++ " copy=none")
+  | some segs => (s1, head r "1" ++ s!" copy={showCopy segs} open=ok q={showCopyQuery segs}")
+
+def showLive (db : DB) : String :=
+  let qs := db.days.flatMap fun d =>
+    match db.seg d with
+    | none => []
+    | some sg =>
+      if !sg.isOpen then [] else
+      (sortNat sg.order).filterMap fun h => (sg.tab h).map fun t =>
+        s!"{d}.{h}:{showParts t}:{showRows (allBatches t)}"
+  joinOr qs ";"
+
+def runDb (ops : List String) : String :=
+  let (s, recs) := ops.foldl (fun (acc : DS × List String) op =>
+    if op.startsWith "s" then
+      let (s', r) := dbSnapshot acc.1 op
+      (s', acc.2 ++ [r])
+    else (dbMaint acc.1 op, acc.2)) (({} : DS), [])
+  let fin := s!"F segs={segStates s.db} q={showLive s.db}"
+  " | ".intercalate (recs ++ [fin])
+
+def handle (line : String) : String :=
+  match words line with
+  | "tbl" :: ops => runTbl ops
+  | "db" :: ops => runDb ops
+  | _ => "bad-op"
+
+def main : IO Unit := runDriver handle
